@@ -50,43 +50,48 @@ func ExtractInMemory[K cmp.Ordered, C codec[K]](r pdf.Getter, root pdf.Object) (
 	if ref, ok := root.(pdf.Reference); ok {
 		seen[ref] = true
 	}
-	extractFromNode[K, C](c, node, seen, tree.Data, 0)
+	if err := extractFromNode[K, C](c, node, seen, tree.Data, 0); err != nil {
+		return nil, err
+	}
 
 	return tree, nil
 }
 
-func extractFromNode[K cmp.Ordered, C codec[K]](c pdf.Cursor, node pdf.Dict, seen map[pdf.Reference]bool, data map[K]pdf.Object, depth int) {
+func extractFromNode[K cmp.Ordered, C codec[K]](c pdf.Cursor, node pdf.Dict, seen map[pdf.Reference]bool, data map[K]pdf.Object, depth int) error {
 	var kc C
 
 	// skip subtrees deeper than the cap; over-deep input is treated as
 	// malformed and silently truncated, leaving a partial map
 	if depth >= kc.maxDepth() {
-		return
+		return nil
 	}
 
 	// leaf node
 	if entries, ok := node[kc.leafKey()]; ok {
 		arr, err := c.Array(entries)
 		if err != nil {
-			return
+			return readErr(err)
 		}
 
 		// extract key-value pairs
 		for i := 0; i+1 < len(arr); i += 2 {
 			key, err := kc.decode(c, arr[i])
+			if pdf.IsReadError(err) {
+				return err
+			}
 			if err != nil {
 				continue
 			}
 			data[key] = arr[i+1]
 		}
-		return
+		return nil
 	}
 
 	// intermediate node with Kids
 	if kids, ok := node["Kids"]; ok {
 		arr, err := c.Array(kids)
 		if err != nil {
-			return
+			return readErr(err)
 		}
 
 		for _, kid := range arr {
@@ -97,12 +102,26 @@ func extractFromNode[K cmp.Ordered, C codec[K]](c pdf.Cursor, node pdf.Dict, see
 				seen[ref] = true
 			}
 			childNode, err := c.Dict(kid)
+			if pdf.IsReadError(err) {
+				return err
+			}
 			if err != nil {
 				continue
 			}
-			extractFromNode[K, C](c, childNode, seen, data, depth+1)
+			if err := extractFromNode[K, C](c, childNode, seen, data, depth+1); err != nil {
+				return err
+			}
 		}
 	}
+	return nil
+}
+
+// readErr returns err if it is a read error, and nil for malformed content.
+func readErr(err error) error {
+	if pdf.IsReadError(err) {
+		return err
+	}
+	return nil
 }
 
 func (t *InMemory[K, C]) Lookup(key K) (pdf.Object, error) {
